@@ -236,21 +236,33 @@ impl Array {
             None
         } else {
             Some(Rc::new(move |c, t, x| {
+                // vectors are single-row matrices, and the dot product transposes the RHS
+                let as_matrix = |v: &Array| {
+                    if v.dimensions.len() < 2 {
+                        v.reshape(vec![1, v.values.len()])
+                    } else {
+                        v.clone()
+                    }
+                };
+
+                let is_dot = c[0].dimensions.len() < 2 && c[1].dimensions.len() < 2;
+                let (a_transpose, b_transpose) = (a_transpose && !is_dot, b_transpose || is_dot);
+                let (a, b, x) = (&as_matrix(&c[0]), &as_matrix(&c[1]), &as_matrix(x));
                 vec![
                     if t[0] {
                         Some(if a_transpose {
-                            Array::matmul((&c[1], b_transpose), (x, true), None)
+                            Array::matmul((b, b_transpose), (x, true), None)
                         } else {
-                            Array::matmul((x, false), (&c[1], !b_transpose), None)
+                            Array::matmul((x, false), (b, !b_transpose), None)
                         })
                     } else {
                         None
                     },
                     if t[1] {
                         Some(if b_transpose {
-                            Array::matmul((x, true), (&c[0], a_transpose), None)
+                            Array::matmul((x, true), (a, a_transpose), None)
                         } else {
-                            Array::matmul((&c[0], !a_transpose), (x, false), None)
+                            Array::matmul((a, !a_transpose), (x, false), None)
                         })
                     } else {
                         None
